@@ -337,7 +337,7 @@ func Run(r *fw.Run) {
 	// collisions above the parent directory: every list of 2..4 paths over a mini pool with two files below
 	// the same deeper directory of a colliding ancestor
 	{
-		mini := []string{"sub/x.go", "SUB/deep/q.go", "SUB/deep/r.go", "SUB/z.go", "sub/deep/y.go", "a", "a/b/c", "a/b/d", "A/b/e", "a/B/f/g", "a/B/f/h", "tool-x/a.go", "tool/b.go", "Tool/c.go", "tool", "\u212a/ab", "\u212a/a", "k/ab", "d\u2126/a.go", "d\u03c9/b.go", "\u212a\u212a/x"}
+		mini := []string{"sub/x.go", "SUB/deep/q.go", "SUB/deep/r.go", "SUB/z.go", "sub/deep/y.go", "a", "a/b/c", "a/b/d", "A/b/e", "a/B/f/g", "a/B/f/h", "tool-x/a.go", "tool/b.go", "Tool/c.go", "tool", "\u212a/ab", "\u212a/a", "k/ab", "d\u2126/a.go", "d\u03c9/b.go", "\u212a\u212a/x", "\u017fa/x.go", "\u017fA/y.go", "\u212ab/x", "\u212aB/y", "\u212a/b/z", "\u212a/B/w", "\u2126x/q/r", "\u2126X/q/s"}
 		for i := range mini {
 			for j := i + 1; j < len(mini); j++ {
 				jobs = append(jobs, job{[]string{mini[i], mini[j]}})
